@@ -106,7 +106,7 @@ func stdinSizeRule(r *core.Result, prog *core.Program, pk *packages.Package) int
 
 func checkC20(r *core.Result) {
 	r.Explanation = "Static clauses of the diagnostic tools: protodump's dump loop has an arm for every declared WireType constant and an erroring default (T1); each arm reads its value with a csproto.Decoder method of that wire type (T2, table); every decoder error is returned (T3); recursion happens only under shouldExpand(p) on the same path p = append(parent, tag) that is passed down, with tag taken from DecodeTag (T5); the result of os.Stdin.Stat() is not used through Size() to decide whether input was piped (T6); only csproto.Decoder methods whose bounds obligations are discharged by C03 are called (list in the evidence). " +
-		"ParseAnnotatedHex: the error of hex.DecodeString is returned and the output is appended only from its result, in line order (H1, H2); a character-class analysis of the transformations applied to each line shows that every unicode white-space character is removed before hex decoding (H3); the lines are the pieces of strings.Split(input, LF) (or an equivalent total splitter) and no API outside the total string packages is consulted (H4)."
+		"ParseAnnotatedHex: the error of hex.DecodeString is returned and the output is appended only from its result, in line order (H1, H2); a character-class analysis of the transformations applied to each line shows that every unicode white-space character is removed before hex decoding (H3); protodump's calls with a non-negative-count precondition (strings.Repeat, Builder.Grow, make) get counts that are non-negative by construction (T7); the lines are the pieces of strings.Split(input, LF) (or an equivalent total splitter) and no API outside the total string packages is consulted (H4)."
 	r.RuleText = "one obligation per arm / decoder call / structural rule"
 	r.Assumptions = []string{"not decided: string-level behaviour of ParseAnnotatedHex (comment and whitespace placement), the exact text protodump prints, tag-path parsing"}
 	r.Trusted = []string{"go/types", "reader table (checks/c20.go)", "C03 for the Decoder methods"}
@@ -116,6 +116,8 @@ func checkC20(r *core.Result) {
 		return
 	}
 	pd := prog.Pkg("cmd/protodump")
+	nT7 := protodumpPanicFreeCalls(r, prog, pd)
+	r.Floor("library calls with a non-negative-count precondition in protodump", nT7, 1)
 	pt := prog.Pkg("prototest")
 	if pd == nil || pt == nil {
 		r.Infra("packages cmd/protodump / prototest not loaded")
@@ -714,4 +716,152 @@ func hexBoundsRule(r *core.Result, prog *core.Program, pk *packages.Package) {
 		r.Ob("H5", keyer.key(f.Name, ob.Site), prog.Pos(ob.Pos), ob.OK, ob.Detail)
 	}
 	r.Floor("index sites of ParseAnnotatedHex", n, 1)
+}
+
+// ---------------------------------------------------------------------------
+// T7: protodump does not panic through a library precondition: the count / size arguments of strings.Repeat,
+// (*strings.Builder).Grow, (*bytes.Buffer).Grow and make are non-negative by construction.
+
+func protodumpPanicFreeCalls(r *core.Result, prog *core.Program, pk *packages.Package) int {
+	info := pk.TypesInfo
+	// integer struct fields that are non-negative by discipline: initialised with a constant >= 0, changed only by
+	// ++ and by a -- that follows a ++ on the same expression in the same block
+	type fieldKey struct{ name string }
+	disciplined := map[string]bool{}
+	violated := map[string]bool{}
+	for _, file := range pk.Syntax {
+		ast.Inspect(file, func(n ast.Node) bool {
+			switch x := n.(type) {
+			case *ast.KeyValueExpr:
+				if id, ok := x.Key.(*ast.Ident); ok {
+					if tv := info.Types[x.Value]; tv.Value != nil && isInt(tv.Type) {
+						if !strings.HasPrefix(tv.Value.ExactString(), "-") {
+							disciplined[id.Name] = true
+						} else {
+							violated[id.Name] = true
+						}
+					}
+				}
+			case *ast.BlockStmt:
+				balance := map[string]int{}
+				for _, st := range x.List {
+					ast.Inspect(st, func(m ast.Node) bool {
+						if _, isBlock := m.(*ast.BlockStmt); isBlock && m != ast.Node(st) {
+							return false // nested blocks are handled on their own
+						}
+						switch y := m.(type) {
+						case *ast.IncDecStmt:
+							if se, ok := y.X.(*ast.SelectorExpr); ok {
+								k := types.ExprString(se)
+								if y.Tok == token.INC {
+									balance[k]++
+								} else {
+									balance[k]--
+									if balance[k] < 0 {
+										violated[se.Sel.Name] = true
+									}
+								}
+							}
+						case *ast.AssignStmt:
+							for _, l := range y.Lhs {
+								if se, ok := l.(*ast.SelectorExpr); ok && isInt(info.TypeOf(se)) {
+									violated[se.Sel.Name] = true // assigned some other way: not tracked
+								}
+							}
+						}
+						return true
+					})
+				}
+			}
+			return true
+		})
+	}
+	var nonNeg func(e ast.Expr, depth int) bool
+	nonNeg = func(e ast.Expr, depth int) bool {
+		if depth > 4 {
+			return false
+		}
+		if tv := info.Types[e]; tv.Value != nil {
+			return !strings.HasPrefix(tv.Value.ExactString(), "-")
+		}
+		switch x := e.(type) {
+		case *ast.ParenExpr:
+			return nonNeg(x.X, depth)
+		case *ast.CallExpr:
+			if id, ok := x.Fun.(*ast.Ident); ok && (id.Name == "len" || id.Name == "cap") {
+				return true
+			}
+			if tv, ok := info.Types[x.Fun]; ok && tv.IsType() && len(x.Args) == 1 {
+				return nonNeg(x.Args[0], depth+1) // conversion between integer types of a non-negative value (no narrowing assumed for sizes)
+			}
+		case *ast.BinaryExpr:
+			switch x.Op {
+			case token.ADD, token.MUL:
+				return nonNeg(x.X, depth+1) && nonNeg(x.Y, depth+1)
+			case token.SHL, token.SHR, token.QUO, token.REM:
+				return nonNeg(x.X, depth+1) && nonNeg(x.Y, depth+1)
+			}
+		case *ast.SelectorExpr:
+			return disciplined[x.Sel.Name] && !violated[x.Sel.Name]
+		case *ast.Ident:
+			// a local whose every assignment is non-negative
+			obj := info.Uses[x]
+			if obj == nil {
+				return false
+			}
+			all, any := true, false
+			for _, file := range pk.Syntax {
+				ast.Inspect(file, func(n ast.Node) bool {
+					as, ok := n.(*ast.AssignStmt)
+					if !ok || len(as.Lhs) != len(as.Rhs) {
+						return true
+					}
+					for i, l := range as.Lhs {
+						if id, ok := l.(*ast.Ident); ok && (info.Defs[id] == obj || info.Uses[id] == obj) {
+							any = true
+							if as.Tok != token.ASSIGN && as.Tok != token.DEFINE || !nonNeg(as.Rhs[i], depth+1) {
+								all = false
+							}
+						}
+					}
+					return true
+				})
+			}
+			return any && all
+		}
+		return false
+	}
+	n := 0
+	for _, file := range pk.Syntax {
+		if strings.HasSuffix(prog.Fset.Position(file.Pos()).Filename, "_test.go") {
+			continue
+		}
+		ast.Inspect(file, func(nn ast.Node) bool {
+			c, ok := nn.(*ast.CallExpr)
+			if !ok {
+				return true
+			}
+			var args []ast.Expr
+			name := ""
+			if id, ok := c.Fun.(*ast.Ident); ok && id.Name == "make" && len(c.Args) >= 2 {
+				if _, isB := info.Uses[id].(*types.Builtin); isB {
+					args, name = c.Args[1:], "make"
+				}
+			} else if fn := staticCallee(info, c); fn != nil && fn.Pkg() != nil {
+				switch fn.Pkg().Path() + "." + fn.Name() {
+				case "strings.Repeat":
+					args, name = c.Args[1:2], "strings.Repeat"
+				case "strings.Grow", "bytes.Grow":
+					args, name = c.Args[0:1], fn.Pkg().Path()+".(…).Grow"
+				}
+			}
+			for _, a := range args {
+				n++
+				r.Ob("T7", "protodump :: "+name+" count "+types.ExprString(a)+" is non-negative", prog.Pos(c.Pos()), nonNeg(a, 0),
+					"the argument is not non-negative by construction (for example it subtracts from a length that can be zero): "+name+" panics on a negative count, so a valid message can crash protodump")
+			}
+			return true
+		})
+	}
+	return n
 }
